@@ -59,6 +59,15 @@ impl<T: Wordy> IntoVal<Env, Val> for T {
         Words::of(self)
     }
 }
+/// tuple -> argument vector: an abstract vector identified by the tuple's encoding
+impl<T: Wordy> IntoVal<Env, Vec<Val>> for T {
+    fn into_val(&self, _e: &Env) -> Vec<Val> {
+        Vec { items: [None, None, None, None], n: 0, abs: Some((T::NW as u32, intern(Words::of(self)))) }
+    }
+    fn shim_words(&self) -> Words {
+        Words::of(self)
+    }
+}
 impl<T: Wordy> TryFromVal<Env, Val> for T {
     type Error = ();
     fn try_from_val(_e: &Env, _v: &Val) -> Result<Self, ()> {
@@ -114,6 +123,14 @@ pub struct Address(pub u64);
 impl Address {
     pub fn require_auth(&self) {
         log_auth(self.0);
+        if !auth_granted(self.0) {
+            trap();
+        }
+    }
+    /// Authorisation of *custom* arguments instead of the invocation's own: it does not show that
+    /// the address authorised this exact call, so it is logged separately (`shim::authed` ignores it).
+    pub fn require_auth_for_args(&self, args: Vec<Val>) {
+        log_auth_custom(self.0, Words::of(&args));
         if !auth_granted(self.0) {
             trap();
         }
@@ -264,6 +281,57 @@ impl Bytes {
     }
     pub fn from_slice(_e: &Env, s: &[u8]) -> Self {
         Bytes { id: content_id(s) }
+    }
+    /// sub-string: the whole range is the string itself; any other range is an uninterpreted
+    /// (injective) function of (string, start, end) — in particular never equal to the string
+    pub fn slice(&self, r: impl core::ops::RangeBounds<u32>) -> Bytes {
+        use core::ops::Bound::*;
+        let start = match r.start_bound() {
+            Included(a) => *a,
+            Excluded(a) => *a + 1,
+            Unbounded => 0,
+        };
+        let end = match r.end_bound() {
+            Included(a) => *a + 1,
+            Excluded(a) => *a,
+            Unbounded => self.len(),
+        };
+        if start > end || end > self.len() {
+            trap();
+        }
+        if start == 0 && end == self.len() {
+            return self.clone();
+        }
+        if start == end {
+            return Bytes { id: EMPTY_ID };
+        }
+        let mut w = Words::new();
+        w.push(0x511CE);
+        w.push(self.id);
+        w.push(start as u64);
+        w.push(end as u64);
+        Bytes { id: intern(w) }
+    }
+    pub fn append(&mut self, other: &Bytes) {
+        if other.id == EMPTY_ID {
+            return;
+        }
+        if self.id == EMPTY_ID {
+            self.id = other.id;
+            return;
+        }
+        let mut w = Words::new();
+        w.push(0xA99E_4D);
+        w.push(self.id);
+        w.push(other.id);
+        self.id = intern(w);
+    }
+    pub fn push_back(&mut self, b: u8) {
+        let mut w = Words::new();
+        w.push(0x9054_BAC);
+        w.push(self.id);
+        w.push(b as u64);
+        self.id = intern(w);
     }
     /// Content of the byte string.  For an *abstract* byte string the content is unknown: an empty
     /// vector is handed out and the identity is parked in `shim::ABSTRACT_CONTENT_TAKEN`; only a
